@@ -90,10 +90,10 @@ class Names(Harness):
         w = ex.w
         cfg = [([], False), ([], True), ([[0x7a]], True), ([[0x79], [0x7a]], True)][c04.choose(ex, 'zone', 4)]
         apex_labels, auth = cfg
-        under = ex.branch(ex.sym('under_apex', 'bool'))
+        where = c04.choose(ex, 'under', 3)           # 0 under the apex, 1 under q., 2 directly under the root
         sh = self.shapes[c04.choose(ex, 'shape', len(self.shapes))]
         labs = [sym_ascii_label(ex, f'l{i}', k) for i, k in enumerate(sh)]
-        full = labs + ([[Int(b, 'u8') for b in l] for l in apex_labels] if under else [[Int(0x71, 'u8')]])
+        full = labs + ([[Int(b, 'u8') for b in l] for l in apex_labels] if where == 0 else [[Int(0x71, 'u8')]] if where == 1 else [])
         return apex_labels, auth, full
 
     def run(self, ex):
@@ -223,11 +223,11 @@ def harnesses(world, tier, seed):
     q = tier == 'quick'
     hs = [
         Octets(name='octets', n=3 if q else 4, bounds={'octets': '0..%d, every octet symbolic 0..255' % (3 if q else 4), 'quoted': 'both'}, expected_classes=('quoted', 'unquoted', 'empty-unquoted')),
-        Names(name='names', bounds={'zone': 'root non-authoritative | root authoritative | z. authoritative | y.z. authoritative', 'name': '1 label of 1-2 octets or 2 labels of 1 octet, under the apex or under q.', 'octets': 'symbolic ASCII, no dot, not upper case, first octet not *'},
+        Names(name='names', bounds={'zone': 'root non-authoritative | root authoritative | z. authoritative | y.z. authoritative', 'name': '1 label of 1-2 octets or 2 labels of 1 octet, under the apex, under q. or directly under the root', 'octets': 'symbolic ASCII, no dot, not upper case, first octet not *'},
               expected_classes=('auth-rel', 'auth-abs', 'nonauth-abs')),
         WholeZone(name='whole-zone', nrec=1, bounds={'zone': 'root non-authoritative | z. authoritative | root authoritative', 'records': '1: owner apex or one symbolic 1-octet label, ordinary or wildcard, A | CNAME | TXT (0..2 symbolic octets) | MX, ttl 300 or 7'},
                   expected_classes=('auth', 'nonauth')),
     ]
     if not q:
-        hs.append(WholeZone(name='whole-zone-2rec', nrec=2, types=('A', 'CNAME'), bounds={'zone': 'as whole-zone', 'records': '2: owner apex or one symbolic 1-octet label, ordinary or wildcard, A | CNAME, ttl 300 or 7'}, expected_classes=('auth', 'nonauth')))
-    return hs, (420 if q else 2700), None
+        hs.append(WholeZone(name='whole-zone-2rec', nrec=2, types=('A',), bounds={'zone': 'as whole-zone', 'records': '2: owner apex or one symbolic 1-octet label, ordinary or wildcard, A, ttl 300 or 7'}, expected_classes=('auth', 'nonauth')))
+    return hs, (1500 if q else 5400), None
